@@ -495,6 +495,7 @@ func c12GenAllocs(t *rapid.T, w *c12World, trunk bool) []c12Alloc {
 	mode := rapid.SampledFrom([]string{"none", "none", "one", "one", "many"}).Draw(t, "default_mode")
 	oneAt := rapid.IntRange(0, n-1).Draw(t, "default_at")
 	var out []c12Alloc
+	var vsws []*c12Vsw
 	for i := 0; i < n; i++ {
 		a := c12Alloc{ENIID: fmt.Sprintf("eni-m%d", i), MAC: c12GenMAC(t), IfName: names[i%len(names)]}
 		if i >= len(names) {
@@ -503,14 +504,28 @@ func c12GenAllocs(t *rapid.T, w *c12World, trunk bool) []c12Alloc {
 		if i == primaryAt && !noPrimary {
 			a.IfName = rapid.SampledFrom([]string{"eth0", "eth0", ""}).Draw(t, "primary_name")
 		}
-		p4 := c12GenSubnet(t, false)
-		a.CIDR4 = p4.String()
-		a.V4 = c12AddrAt(p4, int64(c12GenOffsets(t, p4, 1)[0])).String()
+		// member ENIs of one pod often sit in the same vSwitch (identical CIDR strings,
+		// different addresses)
 		dual := w.v6()
+		var vsw *c12Vsw
+		if i > 0 && rapid.Bool().Draw(t, "share_vsw") {
+			vsw = vsws[rapid.IntRange(0, len(vsws)-1).Draw(t, "vsw")]
+			if vsw.free(dual) < 1 {
+				vsw = nil
+			}
+		}
+		if vsw == nil {
+			vsw = &c12Vsw{p4: c12GenSubnet(t, false), used4: map[int]bool{}, used6: map[int]bool{}}
+			if dual {
+				vsw.p6 = c12GenSubnet(t, true)
+			}
+			vsws = append(vsws, vsw)
+		}
+		a.CIDR4 = vsw.p4.String()
+		a.V4 = c12AddrAt(vsw.p4, int64(c12Probe(vsw.used4, c12GenOffsets(t, vsw.p4, 1)[0], c12MaxOff(vsw.p4)))).String()
 		if dual {
-			p6 := c12GenSubnet(t, true)
-			a.CIDR6 = p6.String()
-			a.V6 = c12AddrAt(p6, int64(c12GenOffsets(t, p6, 1)[0])).String()
+			a.CIDR6 = vsw.p6.String()
+			a.V6 = c12AddrAt(vsw.p6, int64(c12Probe(vsw.used6, c12GenOffsets(t, vsw.p6, 1)[0], c12MaxOff(vsw.p6)))).String()
 		}
 		switch mode {
 		case "one":
@@ -1419,17 +1434,34 @@ func c12CheckParsed(c *vt.Ctx, what string, cfg *types.SetupConfig, nc *rpc.NetC
 // c12CheckDelCheck feeds one NetConf of a GetIPInfo reply (what CNI DEL and CNI CHECK
 // receive) to the real parseTearDownConf and parseCheckConf and compares with what the
 // daemon sent and with what parseSetupConf made of the same configuration at ADD time.
-func c12CheckDelCheck(c *vt.Ctx, what string, nc *rpc.NetConf, setup *types.SetupConfig, conf *types.CNIConf, cs *c12CNI,
-	ipType rpc.IPType, args *skel.CmdArgs) {
-	bi := nc.GetBasicInfo()
-	trunk := nc.GetENIInfo().GetTrunk()
-	wantDP := c12RefDP(ipType, trunk, cs.VlanStrip)
-	wantIdx := c12WantIndex(nc.GetENIInfo().GetMAC())
+//
+// Parsing (c12ParseDelCheck) and judging (c12CheckDelCheck) are separate steps: the
+// plugin parses every interface of a reply before it uses any of the results, so the
+// assertions must look at the results after ALL interfaces have been parsed.
+type c12DelCheck struct {
+	td *types.TeardownCfg
+	ck *types.CheckConfig
+}
 
+func c12ParseDelCheck(c *vt.Ctx, what string, nc *rpc.NetConf, conf *types.CNIConf, ipType rpc.IPType, args *skel.CmdArgs) c12DelCheck {
 	td, err := parseTearDownConf(nc, conf, ipType)
 	if err != nil {
 		c.Fatalf("%s: DEL parser rejects %v: %v", what, nc, err)
 	}
+	ck, err := parseCheckConf(args, nc, conf, ipType)
+	if err != nil {
+		c.Fatalf("%s: CHECK parser rejects %v: %v", what, nc, err)
+	}
+	return c12DelCheck{td: td, ck: ck}
+}
+
+func c12CheckDelCheck(c *vt.Ctx, what string, nc *rpc.NetConf, parsed c12DelCheck, setup *types.SetupConfig, conf *types.CNIConf, cs *c12CNI,
+	ipType rpc.IPType) {
+	bi := nc.GetBasicInfo()
+	trunk := nc.GetENIInfo().GetTrunk()
+	wantDP := c12RefDP(ipType, trunk, cs.VlanStrip)
+	wantIdx := c12WantIndex(nc.GetENIInfo().GetMAC())
+	td, ck := parsed.td, parsed.ck
 	// Teardown does not distinguish trunk members: parseTearDownConf evaluates the table
 	// without trunking (a literal `false`, on purpose — doCmdDel only has teardown branches
 	// for the ipvlan and policy-route datapaths, everything else is removed by
@@ -1462,10 +1494,6 @@ func c12CheckDelCheck(c *vt.Ctx, what string, nc *rpc.NetConf, setup *types.Setu
 		c.Fatalf("%s: DEL network-priority switch %v, conf %v", what, td.EnableNetworkPriority, conf.EnableNetworkPriority)
 	}
 
-	ck, err := parseCheckConf(args, nc, conf, ipType)
-	if err != nil {
-		c.Fatalf("%s: CHECK parser rejects %v: %v", what, nc, err)
-	}
 	if ck.DP != wantDP || ck.DP != setup.DP {
 		c.Fatalf("%s: CHECK maps the configuration to datapath %d, ADD chose %d and the table says %d for (ipType=%s trunk=%v vlan=%q)",
 			what, ck.DP, setup.DP, wantDP, ipType, trunk, cs.VlanStrip)
@@ -1537,6 +1565,13 @@ func c12RunWorld(c *vt.Ctx, w c12World) {
 		}
 	}
 	if w.podENI() {
+		seen := map[string]bool{}
+		for _, a := range w.Allocs {
+			if a.CIDR4 != "" && seen[a.CIDR4] {
+				c.Label("podeni-shared-vswitch")
+			}
+			seen[a.CIDR4] = true
+		}
 		c.Labelf("podeni-defaults:%d", min(nDefault, 2))
 		if nPrimary == 0 {
 			c.Label("podeni-no-primary")
@@ -1658,15 +1693,19 @@ func c12RunWorld(c *vt.Ctx, w c12World) {
 		if err := proto.Unmarshal(b, wire); err != nil {
 			c.Fatalf("unmarshal reply: %v", err)
 		}
+		// as doCmdAdd: every interface of the reply is parsed first, the configurations
+		// are used afterwards — so they are judged after the whole reply has been parsed
 		var setups []*types.SetupConfig
 		for i, nc := range wire.GetNetConfs() {
 			cfg, err := parseSetupConf(args, nc, conf, wire.GetIPType())
 			if err != nil {
 				c.Fatalf("plugin rejects NetConf[%d] %v of a successful reply: %v", i, nc, err)
 			}
-			c12CheckParsed(c, fmt.Sprintf("plugin NetConf[%d] if=%q", i, nc.GetIfName()), cfg, nc, conf, &w.CNI, wire.GetIPType(), args.IfName)
-			c.Labelf("dp:%d", cfg.DP)
 			setups = append(setups, cfg)
+		}
+		for i, nc := range wire.GetNetConfs() {
+			c12CheckParsed(c, fmt.Sprintf("plugin NetConf[%d] if=%q", i, nc.GetIfName()), setups[i], nc, conf, &w.CNI, wire.GetIPType(), args.IfName)
+			c.Labelf("dp:%d", setups[i].DP)
 		}
 		// CNI DEL and CHECK parse the GetIPInfo reply (equal to the ADD reply, checked above)
 		b, err = proto.Marshal(info)
@@ -1677,9 +1716,13 @@ func c12RunWorld(c *vt.Ctx, w c12World) {
 		if err := proto.Unmarshal(b, infoWire); err != nil {
 			c.Fatalf("unmarshal GetIPInfo reply: %v", err)
 		}
+		var dcs []c12DelCheck
 		for i, nc := range infoWire.GetNetConfs() {
-			c12CheckDelCheck(c, fmt.Sprintf("plugin GetIPInfo NetConf[%d] if=%q", i, nc.GetIfName()), nc, setups[i], conf, &w.CNI,
-				infoWire.GetIPType(), args)
+			dcs = append(dcs, c12ParseDelCheck(c, fmt.Sprintf("plugin GetIPInfo NetConf[%d] if=%q", i, nc.GetIfName()), nc, conf, infoWire.GetIPType(), args))
+		}
+		for i, nc := range infoWire.GetNetConfs() {
+			c12CheckDelCheck(c, fmt.Sprintf("plugin GetIPInfo NetConf[%d] if=%q", i, nc.GetIfName()), nc, dcs[i], setups[i], conf, &w.CNI,
+				infoWire.GetIPType())
 		}
 		if round == 0 {
 			first = reply
@@ -2177,36 +2220,71 @@ func c12GenParse(t *rapid.T) c12ParseScenario {
 	s.B = c12GenNC(t, s.Trunk)
 	s.BCNI = c12GenCNI(t)
 	s.BCNI.VlanStrip = s.Vlan
+	// the two configurations often sit in the same vSwitch (identical CIDR strings,
+	// different addresses)
+	if rapid.Bool().Draw(t, "share_vsw") {
+		other := func(p netip.Prefix, taken string) string {
+			o := c12GenOffsets(t, p, 1)[0]
+			if c12AddrAt(p, int64(o)).String() == taken {
+				o = o%c12MaxOff(p) + 1
+			}
+			return c12AddrAt(p, int64(o)).String()
+		}
+		if s.A.V4 != "" && s.B.V4 != "" {
+			s.B.CIDR4, s.B.GW4 = s.A.CIDR4, s.A.GW4
+			s.B.V4 = other(netip.MustParsePrefix(s.A.CIDR4), s.A.V4)
+		}
+		if s.A.V6 != "" && s.B.V6 != "" {
+			s.B.CIDR6, s.B.GW6 = s.A.CIDR6, s.A.GW6
+			s.B.V6 = other(netip.MustParsePrefix(s.A.CIDR6), s.A.V6)
+		}
+	}
 	return s
 }
 
 func c12RunParse(c *vt.Ctx, s c12ParseScenario) {
 	ipType := rpc.IPType(s.IPType)
-	var dps []types.DataPath
-	for i, pair := range []struct {
-		n  *c12NC
-		cs *c12CNI
-	}{{&s.A, &s.ACNI}, {&s.B, &s.BCNI}} {
-		n, cs := pair.n, pair.cs
-		conf := c12CNIConf(c, cs)
-		nc := n.toRPC()
-		b, err := proto.Marshal(nc)
+	type variant struct {
+		n    *c12NC
+		cs   *c12CNI
+		conf *types.CNIConf
+		wire *rpc.NetConf
+		args *skel.CmdArgs
+		cfg  *types.SetupConfig
+		dc   c12DelCheck
+	}
+	vs := []*variant{{n: &s.A, cs: &s.ACNI}, {n: &s.B, cs: &s.BCNI}}
+	// phase 1: everything is parsed (ADD parser for both, then DEL/CHECK parsers for both) ...
+	for i, v := range vs {
+		v.conf = c12CNIConf(c, v.cs)
+		b, err := proto.Marshal(v.n.toRPC())
 		if err != nil {
 			c.Fatalf("marshal: %v", err)
 		}
-		wire := &rpc.NetConf{}
-		if err := proto.Unmarshal(b, wire); err != nil {
+		v.wire = &rpc.NetConf{}
+		if err := proto.Unmarshal(b, v.wire); err != nil {
 			c.Fatalf("unmarshal: %v", err)
 		}
-		args := &skel.CmdArgs{ContainerID: "sandbox-1", Netns: "/proc/self/ns/net", IfName: n.ArgIfName}
-		cfg, err := parseSetupConf(args, wire, conf, ipType)
+		v.args = &skel.CmdArgs{ContainerID: "sandbox-1", Netns: "/proc/self/ns/net", IfName: v.n.ArgIfName}
+		v.cfg, err = parseSetupConf(v.args, v.wire, v.conf, ipType)
 		if err != nil {
-			c.Fatalf("variant %d: parser rejects a well-formed NetConf %v: %v", i, wire, err)
+			c.Fatalf("variant %d: parser rejects a well-formed NetConf %v: %v", i, v.wire, err)
 		}
-		c12CheckParsed(c, fmt.Sprintf("variant %d", i), cfg, wire, conf, cs, ipType, n.ArgIfName)
-		// the same configuration as CNI DEL and CNI CHECK would receive it from GetIPInfo
-		c12CheckDelCheck(c, fmt.Sprintf("variant %d", i), wire, cfg, conf, cs, ipType, args)
-		dps = append(dps, cfg.DP)
+	}
+	// ... phase 2: the ADD results are judged only now, as the plugin uses them only after
+	// the whole reply was parsed
+	var dps []types.DataPath
+	for i, v := range vs {
+		c12CheckParsed(c, fmt.Sprintf("variant %d", i), v.cfg, v.wire, v.conf, v.cs, ipType, v.n.ArgIfName)
+	}
+	// the same configurations as CNI DEL and CNI CHECK would receive them from GetIPInfo
+	for i, v := range vs {
+		v.dc = c12ParseDelCheck(c, fmt.Sprintf("variant %d", i), v.wire, v.conf, ipType, v.args)
+	}
+	for i, v := range vs {
+		n, cs := v.n, v.cs
+		c12CheckDelCheck(c, fmt.Sprintf("variant %d", i), v.wire, v.dc, v.cfg, v.conf, cs, ipType)
+		dps = append(dps, v.cfg.DP)
 		if cs.RtIngress > 0 || cs.RtEgress > 0 {
 			c.Label("runtime-bandwidth")
 			c.NonTrivial()
@@ -2224,6 +2302,9 @@ func c12RunParse(c *vt.Ctx, s c12ParseScenario) {
 		if !n.HasPod {
 			c.Label("no-pod-info")
 		}
+	}
+	if (s.A.CIDR4 != "" && s.A.CIDR4 == s.B.CIDR4) || (s.A.CIDR6 != "" && s.A.CIDR6 == s.B.CIDR6) {
+		c.Label("shared-vswitch")
 	}
 	// metamorphic: only (IP type, trunk, VLAN mode) were kept between the two variants
 	if dps[0] != dps[1] {
